@@ -804,13 +804,31 @@ class BlobStorage(BlobStorageMixin):
         else:
             self.__storage.tpc_abort(transaction, *arg, **kw)
 
+    def _blob_sweep_files(self, oid_path, cutoff):
+        # The files of an oid directory the sweep may judge, and whether
+        # there are others.  A file whose serial is later than the last
+        # transaction committed when the sweep began belongs to a commit
+        # that is in progress (its record cannot be loaded yet) or that
+        # finished meanwhile: it is never garbage for this pack.
+        older = []
+        newer = False
+        for filename in os.listdir(oid_path):
+            serial = self.fshelper.splitBlobFilename(
+                os.path.join(oid_path, filename))[1]
+            if serial is not None and serial > cutoff:
+                newer = True
+            else:
+                older.append(filename)
+        return older, newer
+
     def _packUndoing(self, packtime, referencesf):
         # Walk over all existing revisions of all blob files and check
         # if they are still needed by attempting to load the revision
         # of that object from the database.  This is maybe the slowest
         # possible way to do this, but it's safe.
+        cutoff = self.__storage.lastTransaction()
         for oid, oid_path in self.fshelper.listOIDs():
-            files = os.listdir(oid_path)
+            files, newer = self._blob_sweep_files(oid_path, cutoff)
             for filename in files:
                 filepath = os.path.join(oid_path, filename)
                 whatever, serial = self.fshelper.splitBlobFilename(filepath)
@@ -823,6 +841,7 @@ class BlobStorage(BlobStorageMixin):
                 shutil.rmtree(oid_path)
 
     def _packNonUndoing(self, packtime, referencesf):
+        cutoff = self.__storage.lastTransaction()
         for oid, oid_path in self.fshelper.listOIDs():
             exists = True
             try:
@@ -830,13 +849,18 @@ class BlobStorage(BlobStorageMixin):
             except (POSKeyError, KeyError):
                 exists = False
 
+            files, newer = self._blob_sweep_files(oid_path, cutoff)
             if exists:
-                files = os.listdir(oid_path)
                 files.sort()
-                latest = files[-1]  # depends on ever-increasing tids
-                files.remove(latest)
+                if files:
+                    # depends on ever-increasing tids
+                    files.remove(files[-1])
                 for f in files:
                     remove_committed(os.path.join(oid_path, f))
+            elif newer:
+                for f in files:
+                    remove_committed(os.path.join(oid_path, f))
+                continue
             else:
                 remove_committed_dir(oid_path)
                 continue
